@@ -6,10 +6,13 @@ root = os.path.dirname(os.path.dirname(os.path.abspath(__file__)))
 sys.path.insert(0, root)
 props = [json.loads(l) for l in open(os.path.join(root, "properties.jsonl"))]
 NA = json.load(open(os.path.join(root, "tools", "not_applicable.json")))
+REGISTERED = set(json.load(open(os.path.join(root, "tools", "registered.json"))))
 checks = []
 claimed = set()
 for p in props:
     pid = p["id"]
+    if pid not in REGISTERED:
+        continue
     path = os.path.join(root, "checks", pid.lower() + ".py")
     if not os.path.exists(path):
         continue
